@@ -82,7 +82,7 @@ func (e *Exec) mutexCall(s *State, ins ssa.Instruction, op string, mu Value) {
 		e.havocGuarded(s, mon, objT, obj)
 		s.held = append(s.held, heldMutex{Obj: obj, Key: key, Mon: mon, Read: op == "rlock"})
 		for _, inv := range mon.Invariants {
-			s.assume(e.evalMonitorInv(mon, inv, objT, obj, s))
+			s.assume(e.asHyp(func() *Node { return e.evalMonitorInv(mon, inv, objT, obj, s) }))
 		}
 		e.regionStart[key] = s.clone()
 		e.lastRegionStart = e.regionStart[key]
